@@ -193,6 +193,15 @@ func status(v *sim.View, a string) int {
 var statusName = map[int]string{-1: "absent", 0: "unstaked", 1: "unstaking", 2: "staked"}
 
 func (m *C06) OnCall(e *sim.Env, c *sim.Call) {
+	// an EndBlock that dies while a matured validator waits for its stake never pays it
+	if c.Kind == "end" && c.Panic != "" && c.Pre.View != nil {
+		for a, x := range c.Pre.View.Vals {
+			if x.Status == 1 && !x.Unstaking.After(c.Time) {
+				e.Violate("C06", "payout-panics", fmt.Sprintf("EndBlock@%d panicked (%s) while validator %s (stake %v) was due for its payout (completion %v)", c.H, firstLine(c.Panic), a, x.Tokens, x.Unstaking), c)
+				break
+			}
+		}
+	}
 	post := c.Post.View
 	if post == nil || (c.Panic != "" && c.Kind == "init") {
 		return
@@ -291,15 +300,6 @@ func (m *C06) OnCall(e *sim.Env, c *sim.Call) {
 	}
 	if msg, ok := stakeMsg(c); ok && deliverOK(c) && msg.Value.BigInt().Cmp(bi(cp.Min)) == 0 {
 		e.Count("c06.stakes_of_exactly_the_minimum_accepted")
-	}
-	// an EndBlock that dies while a matured validator waits for its stake never pays it
-	if c.Kind == "end" && c.Panic != "" && pre != nil {
-		for a, x := range pre.Vals {
-			if x.Status == 1 && !x.Unstaking.After(c.Time) {
-				e.Violate("C06", "payout-panics", fmt.Sprintf("EndBlock@%d panicked (%s) while validator %s (stake %v) was due for its payout (completion %v)", c.H, firstLine(c.Panic), a, x.Tokens, x.Unstaking), c)
-				break
-			}
-		}
 	}
 	// timely payout: after EndBlock nobody may still be unstaking past its completion time
 	if c.Kind == "end" && c.Panic == "" {
